@@ -636,58 +636,62 @@ def run(chk: core.Check) -> int:
         if not hit:
             chk.notes.append("witness of %s no longer fails with its signature (stale finding?) — %d failures" % (wid, len(fails)))
     # ---- (2) main stream: generated interfaces x all configurations ---------------------------------------------
-    n_ir = 300 if chk.quick else 5000
+    n_ir = 300 if chk.quick else 3000
     cases = gen_cases(rng, n_ir)
-    recs = []
+    cov = collections.Counter()
+    n_claimed = n_thm = n_hyp = n_in = n_main = 0
     B = 4200
     for i in range(0, len(cases), B):
-        recs += run_cases(chk, cases[i:i + B], "main")
-    cov = collections.Counter()
-    n_claimed = n_thm = n_hyp = n_in = 0
-    for k, rec in enumerate(recs):
-        claimed = compare(chk, rec, stats, "main")
-        fails = evaluate(chk, rec, sig_counts)
-        m = rec["m_dom"]
-        in_dom, hyp = bool(m.get("in")), bool(m.get("hyp"))
-        if hyp != (not m.get("issues")):
-            chk.notes.append("docHyp and docIssues disagree on a case: %s" % json.dumps({"fmt": rec["fmt"], "cfg": rec["cfg"], "ir": rec["irj"]})[:300])
-        n_claimed += claimed
-        n_in += in_dom
-        n_hyp += hyp
-        if in_dom and hyp:
-            n_thm += 1
-            # the theorem's instance, evaluated with the compiled model on the real layer's answers
-            mp = rec["m_parse"]
-            if claimed and "ok" in mp and view(mp["ok"]) != view(norm_expected(rec["fmt"], rec["irj"])):
-                chk.disagreement("C02 theorem instance: model round trip differs from norm(ir) inside D02 with the hypotheses true",
-                                 {"fmt": rec["fmt"], "cfg": rec["cfg"], "ir": rec["irj"]}, view(norm_expected(rec["fmt"], rec["irj"])), view(mp["ok"]))
-        chk.count((rec["fmt"], json.dumps(rec["cfg"], sort_keys=True), json.dumps(rec["irj"], sort_keys=True)), in_dom and hyp and claimed)
-        cov[("format", rec["fmt"])] += 1
-        cov[("domain", rec["fmt"], rec["cfg"]["style"], "in D02" if in_dom else "outside D02", "doc-layer hypotheses hold" if hyp else "doc-layer hypotheses fail")] += 1
-        for _, p in rec["irj"]["params"]:
-            if rec["fmt"] == "class" and rec["cfg"] == CFGS["class"][0]:
-                fl = default_flags(p.get("default"))
-                cov[("param", typ_kind(p["typ"]), default_kind(p.get("default")) + ("/falsy" if fl["falsy"] else "") + ("/neg" if fl["neg"] else ""))] += 1
-        if k < 3:
-            chk.sample({"fmt": rec["fmt"], "cfg": rec["cfg"], "ir": rec["irj"], "src": rec["real"].get("src"), "parsed_view": view(rec["real"]["parsed"]) if "parsed" in rec["real"] else None,
-                        "in_D02": in_dom, "doc_hyp": hyp, "failures": [t for _, t in fails][:3]})
+        # batches are evaluated and dropped (a record carries the docstring layer's answers: ~20 kB)
+        for k, rec in enumerate(run_cases(chk, cases[i:i + B], "main"), start=i):
+            n_main += 1
+            claimed = compare(chk, rec, stats, "main")
+            fails = evaluate(chk, rec, sig_counts)
+            m = rec["m_dom"]
+            in_dom, hyp = bool(m.get("in")), bool(m.get("hyp"))
+            if hyp != (not m.get("issues")):
+                chk.notes.append("docHyp and docIssues disagree on a case: %s" % json.dumps({"fmt": rec["fmt"], "cfg": rec["cfg"], "ir": rec["irj"]})[:300])
+            n_claimed += claimed
+            n_in += in_dom
+            n_hyp += hyp
+            if in_dom and hyp:
+                n_thm += 1
+                # the theorem's instance, evaluated with the compiled model on the real layer's answers
+                mp = rec["m_parse"]
+                if claimed and "ok" in mp and view(mp["ok"]) != view(norm_expected(rec["fmt"], rec["irj"])):
+                    chk.disagreement("C02 theorem instance: model round trip differs from norm(ir) inside D02 with the hypotheses true",
+                                     {"fmt": rec["fmt"], "cfg": rec["cfg"], "ir": rec["irj"]}, view(norm_expected(rec["fmt"], rec["irj"])), view(mp["ok"]))
+            chk.count((rec["fmt"], json.dumps(rec["cfg"], sort_keys=True), json.dumps(rec["irj"], sort_keys=True)), in_dom and hyp and claimed)
+            cov[("format", rec["fmt"])] += 1
+            cov[("domain", rec["fmt"], rec["cfg"]["style"], "in D02" if in_dom else "outside D02", "doc-layer hypotheses hold" if hyp else "doc-layer hypotheses fail")] += 1
+            for _, p in rec["irj"]["params"]:
+                if rec["fmt"] == "class" and rec["cfg"] == CFGS["class"][0]:
+                    fl = default_flags(p.get("default"))
+                    cov[("param", typ_kind(p["typ"]), default_kind(p.get("default")) + ("/falsy" if fl["falsy"] else "") + ("/neg" if fl["neg"] else ""))] += 1
+            if k < 3:
+                chk.sample({"fmt": rec["fmt"], "cfg": rec["cfg"], "ir": rec["irj"], "src": rec["real"].get("src"), "parsed_view": view(rec["real"]["parsed"]) if "parsed" in rec["real"] else None,
+                            "in_D02": in_dom, "doc_hyp": hyp, "failures": [t for _, t in fails][:3]})
     # ---- (3) parse-only stream -----------------------------------------------------------------------------------
-    srcs = gen_parse_sources(rng, 1500 if chk.quick else 20000)
-    preals = core.pmap(real_parse_source, srcs, chunksize=32)
-    pmodels = core.model_batch([{"op": "c02.parse", "fmt": f, "ast": r["reparsed"], "env": r["env"]} for (f, _), r in zip(srcs, preals)])
-    for (f, src), r, mp in zip(srcs, preals, pmodels):
-        rec = {"fmt": f, "cfg": {"source": src}, "irj": None, "real": dict(r, emit_py=None, emit_ast=None), "m_emit": {"error": "unsupported: parse-only"}, "m_parse": mp}
-        compare(chk, rec, stats, "parse-only")
-        chk.count(("parse-only", f, src), False)
+    all_srcs = gen_parse_sources(rng, 1500 if chk.quick else 12000)
+    for i in range(0, len(all_srcs), 3000):
+        srcs = all_srcs[i:i + 3000]
+        preals = core.pmap(real_parse_source, srcs, chunksize=32)
+        pmodels = core.model_batch([{"op": "c02.parse", "fmt": f, "ast": r["reparsed"], "env": r["env"]} for (f, _), r in zip(srcs, preals)])
+        for (f, src), r, mp in zip(srcs, preals, pmodels):
+            rec = {"fmt": f, "cfg": {"source": src}, "irj": None, "real": dict(r, emit_py=None, emit_ast=None), "m_emit": {"error": "unsupported: parse-only"}, "m_parse": mp}
+            compare(chk, rec, stats, "parse-only")
+            chk.count(("parse-only", f, src), False)
+    srcs = all_srcs
     # ---- (4) outside the domain: descriptions with ad-hoc type triggers (correspondence only) --------------------
-    tcases = gen_cases(rng, 30 if chk.quick else 400, trigger_docs=True)
-    for rec in run_cases(chk, tcases, "triggers"):
-        compare(chk, rec, stats, "triggers")
-        chk.count(("trigger", rec["fmt"], json.dumps(rec["cfg"], sort_keys=True), json.dumps(rec["irj"], sort_keys=True)), False)
+    tcases = gen_cases(rng, 30 if chk.quick else 300, trigger_docs=True)
+    for i in range(0, len(tcases), B):
+        for rec in run_cases(chk, tcases[i:i + B], "triggers"):
+            compare(chk, rec, stats, "triggers")
+            chk.count(("trigger", rec["fmt"], json.dumps(rec["cfg"], sort_keys=True), json.dumps(rec["irj"], sort_keys=True)), False)
     n_dis = sum(v for k, v in stats.items() if k[-1] == "DISAGREE")
     n_agree = sum(v for k, v in stats.items() if k[-1] == "agree" or k[-1].startswith("both raise") or k[-1].startswith("docstring layer raises"))
     chk.oblige("correspondence: real emitters/parsers = Iface.emit / Top.reparse / Iface.parse on %d generated cases + %d hand-written sources + %d trigger cases + %d witnesses "
-               "(emitted AST, re-parsed AST, parsed IR)" % (len(recs), len(srcs), len(tcases), len(WITNESSES)), "correspondence", n_dis == 0,
+               "(emitted AST, re-parsed AST, parsed IR)" % (n_main, len(srcs), len(tcases), len(WITNESSES)), "correspondence", n_dis == 0,
                "%d disagreements; %d stage agreements; %d cases fully claimed by the model" % (n_dis, n_agree, n_claimed))
     chk.coverage["correspondence_outcomes"] = {" | ".join(k): v for k, v in sorted(stats.items())}
     chk.coverage["input_distribution"] = {" | ".join(k): v for k, v in sorted(cov.items())}
